@@ -18,7 +18,7 @@ Require Import PG.Base.Bytes PG.Base.GoSlice PG.Base.Value.
 Require Import PG.C02.Model PG.C02.Spec PG.C03.Model PG.C03.Spec PG.C03.Main PG.C03.Inst PG.C09.Spec.
 Require PG.C01.Lib PG.C01.Model PG.C01.Spec PG.C01.Inst.
 Require PG.C14.Model PG.C14.Spec.
-Require Import PG.C12.Lib PG.C12.Model PG.C12.Spec PG.C12.Cli.
+Require Import PG.C12.Lib PG.C12.Model PG.C12.Spec PG.C12.Cli PG.C12.Expect.
 Require Import Coq.Strings.String.
 Import Coq.Init.Datatypes Coq.Lists.List ListNotations.
 
@@ -211,111 +211,8 @@ Definition auth_file (roles : list PG.C14.Spec.stored_role) : bytes := PG.C14.Sp
 Definition auth_ok (roles : list PG.C14.Spec.stored_role) : bool := PG.C14.Spec.page_ok_b roles.
 Definition x_creds (roles : list PG.C14.Spec.stored_role) : list AuthInfo := map cv_auth (PG.C14.Spec.expected_roles roles).
 
-(* what a client holding cluster c (roles creds, pg_control bytes ctl) must answer to a call *)
-Section Expect.
-Variable c : acluster.
-Variable creds : option (list AuthInfo).     (* None: no global/1260 *)
-Variable ctl : option bytes.                 (* None: no global/pg_control *)
-Local Notation E := i_env.
-
-Definition x_version : bytes := match a_version c with Some v => i_TrimSpace v | None => [] end.
-Definition x_control : option bytes := match ctl with Some d => i_ParseControlFile d | None => None end.
-Definition x_credentials : list AuthInfo := match creds with Some l => l | None => [] end.
-Definition x_dbs : list DatabaseInfo := expected_databases c.
-Definition x_database (n : bytes) : option DatabaseInfo := lookup E db_name x_dbs n.
-Definition x_tables (db : Z) : list TableInfo := match find_adb c db with Some d => expected_listing d | None => [] end.
-Definition x_tables_by_name (n : bytes) : list TableInfo :=
-  match x_database n with Some db => x_tables (db_oid db) | None => [] end.
-Definition x_table (db : Z) (n : bytes) : option TableInfo := lookup E ti_name (x_tables db) n.
-Definition x_attrs (db oid : Z) : list AttrInfo := match find_adb c db with Some d => attrs_of d oid | None => [] end.
-Definition x_find_rel (db : Z) (t : TableInfo) : option arel :=
-  match find_adb c db with
-  | None => None
-  | Some d => find (fun r => (r_filenode r =? ti_filenode t) && (r_oid r =? ti_oid t)) (d_rels d)
-  end.
-(* queries are asked about relations of the cluster (t = ti_of r), about nil, and about a filenode 0 *)
-Definition x_query (db : Z) (t : option TableInfo) (o : option QueryOptions) : list row :=
-  match t with
-  | None => []
-  | Some t => if ti_filenode t =? 0 then [] else
-              match x_find_rel db t with
-              | None => []
-              | Some r => match o with
-                          | None => expected_query r [] 0
-                          | Some o => expected_query r (q_columns o) (q_limit o)
-                          end
-              end
-  end.
-Definition x_query_by_name (dn tn : bytes) (o : option QueryOptions) : list row :=
-  match x_database dn with
-  | None => []
-  | Some db => match x_table (db_oid db) tn with None => [] | Some t => x_query (db_oid db) (Some t) o end
-  end.
-Definition x_dump_table (db : Z) (t : TableInfo) : TableDump :=
-  let rows := x_query db (Some t) None in
-  {| td_oid := ti_oid t; td_name := ti_name t; td_filenode := ti_filenode t; td_kind := ti_kind t;
-     td_columns := map (colinfo_of_attr E) (x_attrs db (ti_oid t)); td_rows := rows; td_rowcount := Z.of_nat (length rows) |}.
-Definition x_dump_database (db : Z) : option DatabaseDump :=
-  match find_adb c db with
-  | None => None
-  | Some d => Some (restrict (expected_db E (withDefaults None) d))
-  end.
-Definition x_dump_database_by_name (n : bytes) : option DatabaseDump :=
-  match x_database n with Some db => x_dump_database (db_oid db) | None => None end.
-Definition x_dump_all : list DatabaseDump := expected_remote_all E c.
-Definition x_summary : SummaryResult :=
-  {| sr_version := x_version; sr_creds := x_credentials; sr_dbs := x_dbs;
-     sr_tables := map (fun d => (d_oid d, expected_listing d))
-                      (filter (fun d => negb (has_prefix (d_name d) s_template)) (a_dbs c)) |}.
-Definition x_exec (args : list bytes) : result E :=
-  let cmd := match args with a :: _ => a | [] => [] end in
-  let nargs := Z.of_nat (length args) in
-  let arg i := nth i args [] in
-  if beq cmd [] || is_cmd cmd "summary" then RSummary _ x_summary
-  else if is_cmd cmd "version" then RVersion _ x_version
-  else if is_cmd cmd "control" then RControl E x_control
-  else if is_cmd cmd "creds" || is_cmd cmd "credentials" then RCreds _ x_credentials
-  else if is_cmd cmd "dbs" || is_cmd cmd "databases" then RDatabases _ x_dbs
-  else if is_cmd cmd "tables" then
-    if nargs <? 2 then RError _ EUsageTables else RTables _ (x_tables_by_name (arg 1%nat))
-  else if is_cmd cmd "columns" then
-    if nargs <? 3 then RError _ EUsageColumns else
-    match x_database (arg 1%nat) with
-    | None => RError _ EDbNotFound
-    | Some db => match x_table (db_oid db) (arg 2%nat) with
-                 | None => RError _ ETableNotFound
-                 | Some t => RColumns _ (x_attrs (db_oid db) (ti_oid t))
-                 end
-    end
-  else if is_cmd cmd "query" then
-    if nargs <? 3 then RError _ EUsageQuery
-    else RQuery _ (x_query_by_name (arg 1%nat) (arg 2%nat) (Some {| q_columns := []; q_limit := 20 |}))
-  else if is_cmd cmd "dump" then
-    if nargs >=? 2 then RDumpDatabase _ (x_dump_database_by_name (arg 1%nat)) else RDumpAll _ x_dump_all
-  else RError _ (EUnknown cmd).
-
-Definition expected_answer (k : call) : answer E :=
-  match k with
-  | KVersion => NBytes _ x_version
-  | KControl => NControl E x_control
-  | KCredentials => NCreds _ x_credentials
-  | KDatabases => NDbs _ x_dbs
-  | KDatabase n => NDb _ (x_database n)
-  | KTables db => NTables _ (x_tables db)
-  | KTablesByName n => NTables _ (x_tables_by_name n)
-  | KTable db n => NTable _ (x_table db n)
-  | KColumns db oid => NAttrs _ (x_attrs db oid)
-  | KColumnNames db oid => NNames _ (map ai_name (x_attrs db oid))
-  | KQuery db t o => NRows _ (x_query db t o)
-  | KQueryByName dn tn o => NRows _ (x_query_by_name dn tn o)
-  | KDumpTable db t => NTableDump _ (option_map (x_dump_table db) t)
-  | KDumpDatabase db => NDbDump _ (x_dump_database db)
-  | KDumpDatabaseByName n => NDbDump _ (x_dump_database_by_name n)
-  | KDumpAll => NDump _ x_dump_all
-  | KSummary => NSummary _ x_summary
-  | KExec args => NResult _ (x_exec args)
-  end.
-End Expect.
+(* what a client must answer to a call: C12/Expect.v at this instance *)
+Definition x_answer := expected_answer i_env.
 
 (* the data-directory dump and the database listing a cluster must give *)
 Definition x_dump (c : acluster) (opts : option Options) : list DatabaseDump := expected_dump i_env c opts.
